@@ -50,13 +50,17 @@ def plan(tier, seed):
     specs.append({"name": "breaks", "kind": "breaks", "shard": 20, "cases": 4000 if tier == "quick" else 60000, "timeout": 7000})
     for i in range(6):
         specs.append({"name": "fix%02d" % i, "kind": "fix", "shard": 30 + i, "cases": 40 if tier == "quick" else 400, "timeout": 7000})
+    for i in range(4):
+        specs.append({"name": "prog%02d" % i, "kind": "prog", "shard": 50 + i, "datasets": 12 if tier == "quick" else 80, "timeout": 7000})
     return specs
 
 
 def required(tier):
     return {"sweeps_recorded": 80, "sweeps_saturation": 80, "saturation_sites_gt127": 20, "saturation_sites_gt255": 8,
             "breaks_checked": 3000, "fits_checked": 150, "fits_with_fixed_sites": 50, "fits_all_fixed": 3, "fits_none_fixed": 20,
-            "fixed_columns_checked": 100, "sampled_columns_checked": 100}
+            "fixed_columns_checked": 100, "sampled_columns_checked": 100,
+            "prog_fits_checked": 100, "prog_fits_with_fixed_sites": 20, "prog_fits_with_variable_sites": 20, "prog_fixed_columns_checked": 40,
+            "prog_datasets_with_per_sample_files": 4}
 
 
 # ---------------------------------------------------------------------------
@@ -371,7 +375,191 @@ def run_fix(tier, seed, spec, col):
             col.sample({k: c[k] for k in ("ploidy", "n_alleles", "thr", "F", "counts", "temps")})
 
 
+# ---------------------------------------------------------------------------
+# 5: the same decision observed inside `mchap assemble --mcmc-fix-homozygous t`
+
+
+def run_prog(tier, seed, spec, col):
+    """In-process `mchap assemble` on generated BAMs with per-sample ploidy / inbreeding files and --mcmc-fix-homozygous t.
+    DenovoMCMC.fit and the sampler are wrapped where the program calls them: for every sample the sites that reach the
+    sampler must be exactly those whose single-SNV homozygous posterior (oracle, computed from the sample's OWN encoded
+    reads, the ploidy and inbreeding its files give it and the command line's t) is below t, and the other sites must
+    re-appear in the trace, in the right column, with the oracle's allele."""
+    import os
+    import shutil
+    import warnings
+
+    from mchap.application.assemble import program as P
+    from mchap.assemble import mcmc as AM
+
+    from vlib import cli, datasets, env
+
+    for dI in range(spec["datasets"]):
+        rng = gen.rng_for(seed, ID, spec["shard"], dI)
+        root = env.workdir("c15-%s-%d" % (spec["name"], dI))
+        shutil.rmtree(root, ignore_errors=True)
+        n_s = int(rng.integers(2, 5))
+        ds = datasets.make_dataset(rng, root, n_samples=n_s, n_loci=int(rng.integers(2, 5)), ploidy=[2, 4, 6], depth=(0, 25), contig_len=700,
+                                   snv_range=(1, 7), hostile=0.05, err=0.01, multi_allelic=0.4)
+        thr = float(rng.choice([0.6, 0.9, 0.99, 0.999, 1.0])) if rng.random() < 0.7 else round(float(rng.uniform(0.51, 1.0)), 4)
+        col.add_to_set("prog_thresholds", thr)
+        per_sample = rng.random() < 0.6
+        F = {smp: (float(rng.choice([0.0, 0.1, 0.3, 0.6])) if per_sample else 0.0) for smp in ds.samples}
+        if per_sample and len(set(F.values())) == 1:
+            F[ds.samples[-1]] = 0.45
+        f0 = float(rng.choice([0.0, 0.2]))
+        if not per_sample:
+            F = {smp: f0 for smp in ds.samples}
+        pf = os.path.join(root, "ploidy.txt")
+        with open(pf, "w") as fh:
+            for smp in reversed(ds.samples):
+                fh.write("%s\t%d\n" % (smp, ds.ploidy[smp]))
+        argv = ["assemble", "--targets", ds.bed, "--variants", ds.vcf, "--reference", ds.fasta, "--bam"] + ds.bams + [
+            "--ploidy", pf, "--mcmc-steps", "30", "--mcmc-burn", "10", "--mcmc-seed", str(dI % 3), "--mcmc-chains", str(1 + dI % 2),
+            "--mcmc-fix-homozygous", repr(thr)]
+        if per_sample:
+            inf = os.path.join(root, "inbreeding.txt")
+            with open(inf, "w") as fh:
+                for smp in ds.samples:
+                    fh.write("%s\t%r\n" % (smp, F[smp]))
+            argv += ["--inbreeding", inf]
+            col.count("prog_datasets_with_per_sample_files")
+        elif f0:
+            argv += ["--inbreeding", repr(f0)]
+        case = {"kind": "prog", "seed": seed, "shard": spec["shard"], "dataset": dI, "threshold": thr, "ploidy": dict(ds.ploidy), "inbreeding": F}
+        col.case(case, nontrivial=True)
+        fits, cur = [], [None]
+        real_fit, real_asm = AM.DenovoMCMC.fit, AM._denovo_assembler
+
+        def spy_asm(**kw):
+            out = real_asm(**kw)
+            if cur[0] is not None:
+                cur[0]["sampler"].append({"reads": kw["reads"].copy(), "n_alleles": np.array(kw["n_alleles"]).tolist(), "inbreeding": float(kw["inbreeding"]), "genotypes": out[0].copy()})
+            return out
+
+        def spy_fit(self, reads, read_counts=None, **kw):
+            rec = {"ploidy": int(self.ploidy), "inbreeding": float(self.inbreeding), "thr": float(self.fix_homozygous), "n_alleles": [int(x) for x in self.n_alleles],
+                   "chains": int(self.chains), "steps": int(self.steps), "reads": np.array(reads, copy=True), "counts": None if read_counts is None else np.array(read_counts, copy=True), "sampler": []}
+            cur[0] = rec
+            try:
+                tr = real_fit(self, reads, read_counts=read_counts, **kw)
+            finally:
+                cur[0] = None
+            rec["trace"] = np.asarray(tr.genotypes).copy()
+            fits.append(rec)
+            return tr
+
+        per_locus = []
+        try:
+            with warnings.catch_warnings():
+                warnings.simplefilter("error", RuntimeWarning)
+                with monitors.patched((AM.DenovoMCMC, "fit", spy_fit), (AM, "_denovo_assembler", spy_asm)):
+                    po = P.cli(["mchap"] + argv)
+                    seen_data = []
+                    real_csg = po.call_sample_genotypes
+
+                    def spy_csg(data):
+                        seen_data.append(data)
+                        return real_csg(data)
+
+                    po.call_sample_genotypes = spy_csg
+                    for locus in po.loci():
+                        lo = len(fits)
+                        try:
+                            po.call_locus(locus, po.sample_bams)
+                        except AssertionError:
+                            col.count("fits_aborted_by_invalid_initial_allele")  # DESIGN.md 8.6, not a fixing-decision matter
+                            continue
+                        per_locus.append((seen_data[-1], lo, len(fits)))
+        except Exception as ex:  # noqa: BLE001
+            cli.relax_warnings()
+            col.violation("program-fails-on-valid-input", "assemble --mcmc-fix-homozygous %r raised %s: %s" % (thr, type(ex).__name__, str(ex)[:300]), case)
+            shutil.rmtree(root, ignore_errors=True)
+            continue
+        cli.relax_warnings()
+        by_name = {L["name"]: L for L in ds.loci}
+        stop = False
+        for data, lo, hi in per_locus:
+            if stop:
+                break
+            S = list(data.samples)
+            L = by_name[data.locus.name]
+            want_na = [1 + len(v["alts"]) for v in sorted(L["snvs"], key=lambda v: v["pos0"])]
+            if hi - lo != len(S):
+                col.violation("sampler-not-run-once-per-sample", "assemble locus %s: %d DenovoMCMC fits for samples %s" % (L["name"], hi - lo, S), case)
+                break
+            for smp, rec in zip(S, fits[lo:hi]):
+                col.count("prog_fits_checked")
+                where = "assemble --mcmc-fix-homozygous %r, locus %s sample %s" % (thr, L["name"], smp)
+                rd, rc = np.asarray(data.read_dists[smp]), np.asarray(data.read_counts[smp])
+                bad = None
+                if rec["ploidy"] != ds.ploidy[smp] or abs(rec["inbreeding"] - F[smp]) > 1e-12 or abs(rec["thr"] - thr) > 1e-12:
+                    bad = "sampler built with ploidy %d inbreeding %r threshold %r; the inputs say %d, %r, %r" % (rec["ploidy"], rec["inbreeding"], rec["thr"], ds.ploidy[smp], F[smp], thr)
+                elif rec["n_alleles"] != want_na:
+                    bad = "sampler built with n_alleles %s; the SNV file lists %s" % (rec["n_alleles"], want_na)
+                elif rec["reads"].shape != rd.shape or not np.array_equal(rec["reads"], rd, equal_nan=True) or (rec["counts"] is not None and not np.array_equal(rec["counts"], rc)):
+                    bad = "reads given to the sampler are not the sample's own encoded reads"
+                if bad:
+                    col.violation("program-sampler-parameters-differ-from-inputs", "%s: %s" % (where, bad), case)
+                    stop = True
+                    break
+                n_base = len(want_na)
+                counts = None if rec["counts"] is None else rec["counts"].astype(np.int64)
+                fixed_allele, ambiguous = {}, False
+                for j in range(n_base):
+                    hp = single_snv_hom_post(rd[:, j, :], counts if len(rd) else None, want_na[j], ds.ploidy[smp], F[smp])
+                    a = int(np.argmax(hp))
+                    if abs(hp[a] - thr) <= 1e-9:
+                        ambiguous = True
+                    if hp[a] >= thr:
+                        fixed_allele[j] = a
+                if ambiguous:
+                    col.count("fits_ambiguous_skipped")
+                    continue
+                het = [j for j in range(n_base) if j not in fixed_allele]
+                col.count("prog_fits_with_fixed_sites" if fixed_allele else "prog_fits_none_fixed")
+                if het:
+                    col.count("prog_fits_with_variable_sites")
+                msg = None
+                if het:
+                    if len(rec["sampler"]) != rec["chains"]:
+                        msg = "sampler ran %d times for %d chains although the oracle leaves sites %s variable" % (len(rec["sampler"]), rec["chains"], het)
+                    else:
+                        exp = (rd if len(rd) else np.full((1, n_base, rd.shape[-1] if rd.ndim == 3 else 1), np.nan))[:, het]
+                        for sc in rec["sampler"]:
+                            if sc["reads"].shape[1] != len(het) or not np.array_equal(np.nan_to_num(sc["reads"], nan=-1.0), np.nan_to_num(exp, nan=-1.0)):
+                                msg = "the columns reaching the sampler (%d) are not the oracle's variable sites %s" % (sc["reads"].shape[1], het)
+                            elif sc["n_alleles"] != [want_na[j] for j in het]:
+                                msg = "allele counts reaching the sampler %s, want %s" % (sc["n_alleles"], [want_na[j] for j in het])
+                            elif abs(sc["inbreeding"] - F[smp]) > 1e-12:
+                                msg = "inbreeding reaching the sampler %r, the sample's is %r" % (sc["inbreeding"], F[smp])
+                elif rec["sampler"]:
+                    msg = "the oracle fixes every site but the sampler ran"
+                tr = rec["trace"]
+                if msg is None and tr.shape[2:] != (ds.ploidy[smp], n_base):
+                    msg = "trace shape %s for ploidy %d and %d SNVs" % (tr.shape, ds.ploidy[smp], n_base)
+                if msg is None:
+                    for j, a in fixed_allele.items():
+                        col.count("prog_fixed_columns_checked")
+                        if not np.all(tr[:, :, :, j] == a):
+                            msg = "fixed site %d should carry allele %d in every chain/step/copy, trace has %s" % (j, a, np.unique(tr[:, :, :, j]).tolist())
+                            break
+                if msg:
+                    col.violation("fixed-site-decision-wrong", "%s (ploidy %d, inbreeding %r): %s" % (where, ds.ploidy[smp], F[smp], msg), case)
+                    stop = True
+                    break
+        if dI == 0 and spec["shard"] == 50:
+            col.sample({"prog": {"argv_tail": argv[-6:], "samples": ds.samples, "fits": len(fits)}})
+        shutil.rmtree(root, ignore_errors=True)
+
+
+def coverage_extra(tier, col):
+    return {"prog_thresholds_used": sorted(col.sets.get("prog_thresholds", ()))}
+
+
 def run_shard(tier, seed, spec, col):
+    if spec["kind"] == "prog":
+        return run_prog(tier, seed, spec, col)
     {"sweep": run_sweep, "breaks": run_breaks, "fix": run_fix}[spec["kind"]](tier, seed, spec, col)
 
 
